@@ -80,7 +80,8 @@ Definition find_group_cohorts (blocks : list (list Z)) (nlabels : nat) (all_size
   else
     let lc := label_chunks blocks nlabels in
     let exact := group_by_chunks lc in
-    if forallb (fun l => Nat.eqb (length (snd l)) 1) lc then Some (Blockwise, exact)
+    if Nat.eqb (length lc) 0 then Some (MapReduce, [])     (* no label present: nothing to plan *)
+    else if forallb (fun l => Nat.eqb (length (snd l)) 1) lc then Some (Blockwise, exact)
     else if Nat.eqb (length exact) 1 then Some (MapReduce, if merge then exact else [])
     else
       let present := map fst lc in
